@@ -1776,3 +1776,102 @@ Lemma xw_run : exists L' F',
   r_state L' = Leader /\ r_term L' = 2 /\ r_election_elapsed L' = 0 /\
   r_state F' = Follower /\ r_term F' = 2 /\ r_vote F' = 1 /\ r_leader_id F' = 1.
 Proof. vm_compute. do 2 eexists. repeat split; reflexivity. Qed.
+
+(* ------------------------------------------------------------------ *)
+(* the definitions used in the pinned statements, unfolded *)
+
+Lemma def_act L id : act L id <-> exists p, get_pr L id = Some p /\ recent_active p = true.
+Proof. reflexivity. Qed.
+
+Lemma def_netmsg ty :
+  netmsg ty <->
+  ty <> MsgHup /\ ty <> MsgBeat /\ ty <> MsgCheckQuorum /\ ty <> MsgUnreachable /\
+  ty <> MsgSnapStatus /\ ty <> MsgTransferLeader /\ ty <> MsgTimeoutNow.
+Proof. reflexivity. Qed.
+
+Lemma def_adv_ok ids l t m :
+  adv_ok ids l t m <->
+  ~ In (m_from m) (l :: ids) /\ netmsg (m_type m) /\
+  (m_type m = MsgRequestPreVote \/
+   (m_term m <> 0 /\ m_term m < t) \/
+   (m_term m <= t /\ from_leader m = false /\ m_type m <> MsgReadIndexResp)).
+Proof. reflexivity. Qed.
+
+Lemma def_from_leader m :
+  from_leader m = (m_type m =? MsgAppend) || (m_type m =? MsgHeartbeat) || (m_type m =? MsgSnapshot).
+Proof. reflexivity. Qed.
+
+Lemma def_deliver st tm :
+  deliver st tm =
+  if fst tm =? r_id (fst st) then x <- step (fst st) (snd tm) ;; Ok (fst x, snd st)
+  else Fs' <- mapM (fun F => if r_id F =? fst tm then x <- step F (snd tm) ;; Ok (fst x)
+                             else Ok F) (snd st) ;;
+       Ok (fst st, Fs').
+Proof. reflexivity. Qed.
+
+Lemma def_deliver_all st adv :
+  deliver_all st adv = match adv with
+                       | [] => Ok st
+                       | tm :: rest => st' <- deliver st tm ;; deliver_all st' rest
+                       end.
+Proof. destruct adv; reflexivity. Qed.
+
+Lemma def_window_round adv L Fs :
+  window_round adv L Fs = (st <- deliver_all (L, Fs) adv ;; star_round (fst st) (snd st)).
+Proof. reflexivity. Qed.
+
+Lemma def_window_rounds advs L Fs :
+  window_rounds advs L Fs =
+  match advs with
+  | [] => Ok (L, Fs)
+  | adv :: rest => x <- window_round adv L Fs ;; window_rounds rest (fst x) (snd x)
+  end.
+Proof. destruct advs; reflexivity. Qed.
+
+Lemma def_adv_schedule L Fs advs :
+  adv_schedule L Fs advs <->
+  Forall (Forall (fun tm => adv_ok (map r_id Fs) (r_id L) (r_term L) (snd tm))) advs.
+Proof. reflexivity. Qed.
+
+Lemma def_window_start L Fs :
+  window_start L Fs <->
+  r_term L <> 0 /\ r_id L <> INVALID_ID /\ ~ In (r_id L) (map r_id Fs) /\
+  r_heartbeat_timeout L < r_election_timeout L /\
+  Quorum.has_quorum (incoming (t_conf (r_prs L))) (outgoing (t_conf (r_prs L)))
+                    (r_id L :: map r_id Fs) = true /\
+  r_state L = Leader /\ r_leader_id L = r_id L /\ r_check_quorum L = true /\
+  r_lead_transferee L = None /\
+  r_heartbeat_elapsed L < r_heartbeat_timeout L /\ r_election_elapsed L < r_election_timeout L /\
+  (forall id, In id (r_id L :: map r_id Fs) -> get_pr L id <> None) /\
+  r_msgs L = [] /\
+  ((forall id, In id (map r_id Fs) -> act L id) \/
+   r_heartbeat_timeout L + r_election_elapsed L < r_election_timeout L + r_heartbeat_elapsed L) /\
+  Forall (fun F =>
+    r_state F = Follower /\ r_term F = r_term L /\ r_leader_id F = r_id L /\
+    r_check_quorum F = true /\
+    r_heartbeat_timeout L < r_election_timeout F /\
+    r_heartbeat_timeout L < r_randomized_election_timeout F /\
+    r_msgs F = [] /\ r_election_elapsed F <= r_heartbeat_elapsed L) Fs.
+Proof. reflexivity. Qed.
+
+(* the two per-node facts behind the adversary condition, on the window's own terms *)
+Theorem window_members_deny L0 Fs0 L Fs m :
+  window_start L0 Fs0 -> window_inv L0 Fs0 L Fs ->
+  (m_type m = MsgRequestVote \/ m_type m = MsgRequestPreVote) -> r_term L0 < m_term m ->
+  list_eqb (m_context m) CAMPAIGN_TRANSFER = false ->
+  step L m = Ok (L, E_OK) /\ Forall (fun F => step F m = Ok (F, E_OK)) Fs.
+Proof.
+  intros (S1 & S2 & _) (HL & _ & _ & HF) Hty Hterm Hctx. split.
+  - exact (leader_denies _ (r_id L0) (r_term L0) _ _ _ _ L m S2 HL Hty Hterm Hctx).
+  - eapply Forall_impl; [|exact HF]. intros F HFi.
+    exact (follower_denies (r_id L0) (r_term L0) _ _ _ F m S2 HFi Hty Hterm Hctx).
+Qed.
+
+Lemma def_star_round L Fs :
+  star_round L Fs =
+  (Fs1 <- mapM (fun F => steps F (to_peer (r_id F) (r_msgs L))) Fs ;;
+   L1 <- steps (L <| r_msgs := [] |>) (concat (map (replies (r_id L)) Fs1)) ;;
+   L2 <- tick L1 ;;
+   Fs2 <- mapM (fun F1 => x <- tick (F1 <| r_msgs := [] |>) ;; Ok (fst x)) Fs1 ;;
+   Ok (fst L2, Fs2)).
+Proof. reflexivity. Qed.
